@@ -321,6 +321,50 @@ fn c17_batches(tier: &str) -> Vec<Batch> {
     vec![Batch { name: "c17-main".into(), profile: c17_profile(), runs: scale(tier, 12_000, 300_000), exec: exec_c17, strata: None }]
 }
 
+fn exec_c18(p: &Profile, cfg: &RunCfg) -> (RunOut, MonOut) {
+    let (out, _w, _s) = run_sm(p, cfg);
+    let mon = c18::monitor(&out);
+    (out, mon)
+}
+
+pub fn c18_profile() -> Profile {
+    let mut p = Profile::base("c18");
+    p.mode = Mode::Start;
+    p.max_checks = 3;
+    p.max_lifetimes = 4;
+    p.apps_max = 3;
+    p.system_app_nonzero_permille = 500;
+    p.crash_permille = 350;
+    p.crash_horizon = 260;
+    p.net = NetRates::clean();
+    p.net.none = 900;
+    p.net.transport = 60;
+    p.net.status = 40;
+    p.srv.app_outcome = [15, 80, 2, 2, 1];
+    p.srv.app_list = [85, 15, 0, 0];
+    p.srv.manifest_absent_permille = 80;
+    p.installer.plan_fail_permille = 40;
+    p.installer.app_result = [70, 10, 20];
+    p.installer.plan_id_fresh_permille = 250;
+    p.installer.reboot = [70, 15, 15];
+    p.policy.check = [95, 5, 0, 0, 0];
+    p.policy.can_start = [90, 5, 5];
+    p.policy.reboot_needed_permille = 800;
+    p.policy.reboot_allowed_permille = 600;
+    p.reboot_version = [3, 1];
+    // wall-clock jumps only between lifetimes (across the reboot)
+    p.clock_jump_permille = 0;
+    p.next_delays_s = vec![0, 1, 60, 3600];
+    p.latency = [3, 5, 2];
+    // slow storage: time passes between a machine's start and its report
+    p.disk.slow = 300;
+    p
+}
+
+fn c18_batches(tier: &str) -> Vec<Batch> {
+    vec![Batch { name: "c18-main".into(), profile: c18_profile(), runs: scale(tier, 15_000, 400_000), exec: exec_c18, strata: None }]
+}
+
 fn c01_batches(tier: &str) -> Vec<Batch> {
     vec![Batch { name: "c01-main".into(), profile: Profile::base("c01"), runs: scale(tier, 20_000, 600_000), exec: crate::cup::run_cup, strata: None }]
 }
@@ -542,6 +586,7 @@ pub fn all() -> Vec<PropDef> {
         def("C07", "header-value classes x status x request kind with probe restarts after every commit and real crashes; a case is one processed response; distinct = (old value, new value, status, request kind)", vec!["'+N' and duplicate headers: any listed reading accepted", "commit is atomic; reads see uncommitted writes"], c07_batches),
         def("C14", "hostile inputs combined with the flow: arbitrary/garbage/bit-flipped/truncated response bytes, statuses, header values, hostile initial storage (wrong types, negatives, i64/u32 extremes for every key), malformed service URLs, wall-clock jumps (backwards, pre-epoch, sub-microsecond, far future), metrics-sink errors, crashes, with a formatting tracing subscriber installed; plus differential re-runs (same seed, storage failures live vs off) comparing requests sent and events announced; a case is one run; distinct = set of fault kinds that fired", vec!["policy and installer answers conform to their contracts", "panic attribution: the executor marks when library code is running; a panic raised inside a dependency while the mark is set counts", "differential rule is evaluated within one lifetime (what is stored legitimately differs afterwards)"], c14_batches),
         def("C17", "the real client (RequestBuilder, CUP handler, parser, whole state machine) against the real mock_omaha_server::handle_request called in-process; service-URL variants, 1-3 apps, key configurations with latest/historical ids on either side, per-app response kinds, forced ETag, admin reconfigurations racing with exchanges; a case is one answered request; distinct = (configured kinds, cup, url)", vec!["requests outside the stated class (ping-only) are not sent in this profile", "the transport seam converts the absolute-form URI to origin-form, as an HTTP client does"], c17_batches),
+        def("C18", "histories of install attempts (plan ids stable or fresh, per-app results, system app at any index, manifest version present or not) with crashes at drawn interactions, reboots into the target or another version and restart delays; metrics, call order and restart behaviour compared with a model of first-seen time, consecutive failed installs and the pending-reboot record; a case is one install or one restart; distinct = outcome signature", vec!["wall-clock jumps happen only between lifetimes; durations derived from a stored (microsecond) time are compared with 1 us tolerance", "an attempt cut by a crash may count or not", "when the system app is not part of the update the target version on record is not judged"], c18_batches),
         def("C11", "up to 4 handle clones issuing up to 6 requests released inside in-flight operations (timer waits, HTTP exchanges, policy questions, plan creation, install steps, reboot wait) with batch readiness so select! order (a seeded decision) matters; handles and stream dropped at drawn moments; interval-style oracle on global sequence numbers; a case is one request; distinct = (reply, options)", vec!["a request left unanswered when the run is cut is not judged", "wake-up without timer is judged in a profile whose timers are >= 10 h away and whose operation latencies are < 1 min"], c11_batches),
         def("C12", "check timings over {wall, monotonic, both} x {minimum wait or none}; timers fire late and in any order; throttled iterations; reboot waits with pings; a case is one wait; distinct = timing shape", vec!["timers never fire early"], c12_batches),
         def("C08", "histories of checks and reboot-wait pings over all outcome classes on a disk with a volatile write cache; probe restart after every commit; real crashes at drawn interactions with rebuild; a case is one check/ping outcome; distinct = (ground-truth outcome, announced result class)", vec!["commit is atomic; reads see uncommitted writes (Storage contract)", "which clock reading inside the check becomes the last-contact time is left open"], c08_batches),
